@@ -163,7 +163,9 @@ class Pseudo2NetCDF:
         ):
             # packed variable: the library fills masked cells after packing
             # (a filled value would be packed, too, and come back unmasked)
-            nvar[:] = pvar[...]
+            pvals = pvar[...]
+            nvar[:] = MaskedArray(np.ma.getdata(pvals),
+                                  mask=np.ma.getmaskarray(pvals))
         elif isinstance(pvar[...], MaskedArray):
             # masked cells must hold the value the file declares as _FillValue
             nvar[:] = pvar[...].filled(getattr(nvar, '_FillValue', getattr(
